@@ -350,7 +350,7 @@ func Chmod(fs FS, name string, mode FileMode) error {
 		return &PathError{Op: "chmod", Path: name, Err: err}
 	}
 	defer func() { _ = file.Close() }()
-	return ChmodFile(file, mode)
+	return withErrPath(ChmodFile(file, mode), name)
 }
 
 // Chown attempts to call an optimized fs.Chown(), falls back to opening the file and running file.Chown().
@@ -368,7 +368,7 @@ func Chown(fs FS, name string, uid, gid int) error {
 		return &PathError{Op: "chown", Path: name, Err: err}
 	}
 	defer func() { _ = file.Close() }()
-	return ChownFile(file, uid, gid)
+	return withErrPath(ChownFile(file, uid, gid), name)
 }
 
 // Chtimes attempts to call an optimized fs.Chtimes(), falls back to opening the file and running file.Chtimes().
@@ -386,7 +386,7 @@ func Chtimes(fs FS, name string, atime time.Time, mtime time.Time) error {
 		return &PathError{Op: "chtimes", Path: name, Err: err}
 	}
 	defer func() { _ = file.Close() }()
-	return ChtimesFile(file, atime, mtime)
+	return withErrPath(ChtimesFile(file, atime, mtime), name)
 }
 
 // ReadDir attempts to call an optimized fs.ReadDir(), falls back to io/fs.ReadDir().
@@ -429,10 +429,20 @@ func WriteFullFile(fs FS, name string, data []byte, perm FileMode) error {
 	f, err := OpenFile(fs, name, FlagWriteOnly|FlagCreate|FlagTruncate, perm)
 	if err == nil {
 		_, err = WriteFile(f, data)
+		err = withErrPath(err, name)
 		closeErr := f.Close()
 		if err == nil {
 			err = closeErr
 		}
+	}
+	return err
+}
+
+// withErrPath returns 'err' with its path replaced by 'name' if it is a *PathError.
+// The file helpers only know a file's base name, the FS helpers report the path they were called with.
+func withErrPath(err error, name string) error {
+	if pathErr, ok := err.(*PathError); ok {
+		return &PathError{Op: pathErr.Op, Path: name, Err: pathErr.Err}
 	}
 	return err
 }
